@@ -390,6 +390,16 @@ fn mutants_sel(s: &J, only: Option<usize>) -> (Vec<(String, J)>, usize) {
                         lazy_push!(out, counter, only, format!("{pstr}:add={l}"), set(s, p, J::Array(c)));
                     }
                 }
+                // a new argument on a field or directive DEFINITION (the parent has a type or locations): optional,
+                // required, required with a default (an implementing field may only add the first and the last kind)
+                let parent_is_def = p.len() >= 1 && { let par = get(s, &p[..p.len() - 1]); par.get("type").is_some() && par.get("args").is_some() && par.get("default").is_none() || par.get("locations").is_some() };
+                if last == "args" && parent_is_def {
+                    for (what, ty, default) in [("optional", json!(["named", "Int"]), "none"), ("required", json!(["nonnull", ["named", "Int"]]), "none"), ("defaulted", json!(["nonnull", ["named", "Int"]]), "value")] {
+                        let mut c = a.clone();
+                        c.push(json!({"name": "zz", "type": ty, "default": default, "dirs": []}));
+                        lazy_push!(out, counter, only, format!("{pstr}:add-{what}-argument"), set(s, p, J::Array(c)));
+                    }
+                }
                 if last == "dirs" {
                     for d in ["d", "e", "deprecated", "skip", "undefinedDirective", "specifiedBy"] {
                         let mut c = a.clone();
